@@ -14,7 +14,10 @@ type Op struct {
 }
 
 // cutCandidates are buffer-full points of the compressors.
-var cutCandidates = []int{8450, 16900, 65536, 65794, 131072, 131588, 4096, 8192, 32768}
+// The first fill is at 2w+258 bytes (8450 / 65794); the buffer then keeps w bytes (plus the 0..8 the
+// match finder left unresolved), so later fills come every w+258 bytes (minus 0..8): 12804, 17158,
+// 21512 for the 4 KiB window, 98820, 131846 for the 32 KiB window.
+var cutCandidates = []int{8450, 16900, 65536, 65794, 131072, 131588, 4096, 8192, 32768, 12804, 17158, 21512, 98820, 131846}
 
 // DrawCuts draws sorted cut points in [0,n] partitioning n bytes.
 func DrawCuts(t *rapid.T, n int, label string) []int {
@@ -47,6 +50,9 @@ func DrawCuts(t *rapid.T, n int, label string) []int {
 		k := rapid.IntRange(1, 4).Draw(t, label+"_ncuts")
 		for i := 0; i < k; i++ {
 			c := rapid.SampledFrom(cutCandidates).Draw(t, label+"_T") + rapid.IntRange(-2, 2).Draw(t, label+"_d")
+			if rapid.IntRange(0, 3).Draw(t, label+"_dd") == 0 {
+				c -= rapid.IntRange(0, 16).Draw(t, label+"_below") // later fills drift down by the unresolved tail
+			}
 			if c >= 0 && c <= n {
 				cuts = append(cuts, c)
 			} else {
